@@ -164,6 +164,18 @@ func programs() []prog {
 				return w.membership()
 			}
 	})
+	add("status-vs-join-vs-leave", func() ([]func(), []string, func() (string, *core.Violation)) {
+		w := newWorld(descPlain)
+		w.join(w.a, "alice", "pa")
+		g := group.Get("g")
+		return []func(){
+				func() { g.Status(true, nil); g.ClientCount(); group.GetPublic(nil) },
+				func() { w.join(w.b, "bob", "pb") },
+				func() { w.leave(w.a) },
+			}, []string{"status", "join(bob)", "leave(alice)"}, func() (string, *core.Violation) {
+				return w.membership()
+			}
+	})
 	add("update-vs-join", func() ([]func(), []string, func() (string, *core.Violation)) {
 		w := newWorld(descPlain)
 		w.join(w.a, "alice", "pa")
